@@ -159,27 +159,35 @@ GNextSim == GEnd \/
 GSpecSim == GInit /\ [][GNextSim]_gvars
 
 \* ---- session-granular bounded-exhaustive generator. A writer session is the fixed
-\* sequence open(start = first sample) ; write ; close, so that scenarios made of several
-\* sessions and deletes ("write, delete everything, rewrite a superset, trim the new head")
-\* are reached EXHAUSTIVELY at small constants: Depth 8 = two sessions and two deletes.
-\* Deletes act on everything ({I,D,V}) or on the data channels only.
+\* sequence open(start = first sample) ; write ; close and counts as ONE macro step, like a
+\* delete, a GC pass or a reopen. Depth bounds the number of macro steps, so that scenarios
+\* made of several sessions and deletes ("write, delete everything, rewrite a superset,
+\* trim the new head") are reached EXHAUSTIVELY at small constants. At most two steps
+\* without a session in a row (long delete chains on one session are the subject of
+\* GSpecBFS); GC and reopen directly after a delete only. Deletes act on everything
+\* ({I,D,V}) or on the data channels only.
 SessSets == {{"D", "V"}, {"I", "D", "V"}}
+Macros == Cardinality({i \in 1..Len(hist) : hist[i].a \notin {"write", "close"}})
+IsQuiet(i) == hist[i].a \in {"delete", "gc", "reopen"}
+QuietRun == IF Len(hist) >= 2 /\ IsQuiet(Len(hist)) /\ IsQuiet(Len(hist) - 1) THEN 2
+            ELSE IF Len(hist) >= 1 /\ IsQuiet(Len(hist)) THEN 1 ELSE 0
 GNextSess ==
-  /\ Len(hist) < Depth
-  /\ IF OpenW # {}
-     THEN LET w == CHOOSE w \in OpenW : TRUE
-          IN IF wr[w].n = 0
-             THEN \E ts \in SUBSET Even : ts # {} /\ Min(ts) = wr[w].start /\ GWrite(w, ts)
-             ELSE GClose(w)
-     ELSE \/ \E w \in Writers, s \in Even :
+  IF OpenW # {}
+  THEN LET w == CHOOSE w \in OpenW : TRUE
+       IN IF wr[w].n = 0
+          THEN \E ts \in SUBSET Even : ts # {} /\ Min(ts) = wr[w].start /\ GWrite(w, ts)
+          ELSE GClose(w)
+  ELSE /\ Macros < Depth
+       /\ \/ \E w \in Writers, s \in Even :
                /\ \A c \in Chan : \A d \in domains[c] : ~Inside(d, s)
                /\ GOpen(w, {"I", "D", "V"}, s, TRUE)
-          \/ (AnyData /\ LastIs("delete") /\ GReopen)
-          \/ (LastIs("delete") /\ GGC)
-          \/ (\E cs \in SessSets, a, b \in Time :
+          \/ (QuietRun < 2 /\ AnyData /\ LastIs("delete") /\ GReopen)
+          \/ (QuietRun < 2 /\ LastIs("delete") /\ GGC)
+          \/ (QuietRun < 2 /\ \E cs \in SessSets, a, b \in Time :
                  /\ a < b /\ \E c \in cs : \E t \in Samples(c) : a <= t /\ t < b
                  /\ GDelete(cs, a, b))
 GSpecSess == GInit /\ [][GNextSess]_gvars
+EmitSess == Macros # Depth \/ OpenW # {} \/ PrintT(<<"HIST", ToJson(hist)>>)
 
 Emit == Len(hist) # Depth \/ PrintT(<<"HIST", ToJson(hist)>>)
 \* simulation: print only the behaviour that was actually chosen (GEnd has one successor)
